@@ -275,6 +275,7 @@ func (e *histEngines) run2(q *histQuery) (digest string, res *histResult, texts,
 			for _, h := range append(append([]*rules.HostRule{}, r.HostRulesV4...), r.HostRulesV6...) {
 				texts = append(texts, h.RuleText)
 			}
+			texts = flagWithoutRule(texts, r, ok)
 		case "dns":
 			dq := &urlfilter.DNSRequest{Hostname: q.host, DNSType: q.dt, ClientName: q.cn, SortedClientTags: q.tags}
 			if q.cip != "" {
@@ -288,6 +289,7 @@ func (e *histEngines) run2(q *histQuery) (digest string, res *histResult, texts,
 			for _, h := range append(append([]*rules.HostRule{}, r.HostRulesV4...), r.HostRulesV6...) {
 				texts = append(texts, h.RuleText)
 			}
+			texts = flagWithoutRule(texts, r, ok)
 		case "web":
 			mr := e.eng.MatchRequest(rules.NewRequest(q.url, q.src, q.typ))
 			res = &histResult{mr: mr}
@@ -322,6 +324,15 @@ func (e *histEngines) run2(q *histQuery) (digest string, res *histResult, texts,
 		digest = "PANIC " + pv
 	}
 	return
+}
+
+// flagWithoutRule: "matched is true if the result has a basic network rule or some host rules"
+// (dnsengine.go).  A flag nothing backs is an answer no rule gives: it shows up as a rule text of its own.
+func flagWithoutRule(texts []string, r *urlfilter.DNSResult, matched bool) []string {
+	if matched && r.NetworkRule == nil && len(r.HostRulesV4) == 0 && len(r.HostRulesV6) == 0 {
+		return append(texts, "<matched, and no rule in the result>")
+	}
+	return texts
 }
 
 func derive(r *histResult, kind string) string {
